@@ -32,7 +32,7 @@ theorem C13_need_patch (acc : AttrAcc) (h : acc.hasRef = true ∨ acc.directives
 
 /-- A spread attribute sets the dynamic-keys fact. -/
 theorem C13_spread_sets_dynamic_keys (o : Opts) (isComp : Bool) (as : List String) (e : Node) (acc : AttrAcc) (st : St) :
-    (attrStep o isComp (.mk .spreadElement as [e]) acc st).1.hasDynamicKeys = true := by
+    (attrStep o isComp (.mk .spreadElement as [e]) none acc st).1.hasDynamicKeys = true := by
   unfold attrStep
   simp only
   split <;> (split <;> (try split) <;> simp)
